@@ -1,5 +1,6 @@
 import IpaVerif.Proofs.BatcherTrace
 import IpaVerif.Proofs.BatcherWorld
+import IpaVerif.Props.C15
 import IpaVerif.Generated.BatcherConsts
 /-!
 # C16 — a record is released only after its whole batch is validated, with its verdict
@@ -306,6 +307,19 @@ theorem batch_checked_at_most_once {n rpb t0 tps failing ops} (h : WSetting n rp
     rw [hfail] at c
     refine ⟨a, b2, ?_⟩
     rw [c]; simp
+
+/-- **active_work_equals_batch.** `DZKPUpgraded::new` sets `active_work = records_per_batch`, and
+`validated_seq_join` chains `validate_record(k)` to task `k`, so task `k` can only finish once the
+later records of its batch — at most `rpb − 1` positions ahead — have reached validation.  With the
+window equal to the batch size this cannot stall: under the (stronger) requirement that *all* of
+the next `rpb − 1` tasks have started, the sequential join (C15 model) finishes within `2n + 2`
+polls with every result in order.  A window smaller than the batch would not do: see the
+`c15.dep` cases of suite `c15_local` with `d ≥ w`. -/
+theorem active_work_equals_batch (n rpb : Nat) (hrpb : 0 < rpb) :
+    let obs := (IpaVerif.SeqJoin.run (IpaVerif.SeqJoin.State.new n rpb)
+      (List.replicate (2 * n + 2) (IpaVerif.SeqJoin.depEnv n (rpb - 1) (rpb + 1)))).2
+    (∃ o, o ∈ obs ∧ o.out = .finished) ∧ IpaVerif.SeqJoin.items obs = List.range n := by
+  exact IpaVerif.C15.window_dependency_progress n rpb (rpb - 1) hrpb (by omega)
 
 /-- `records_per_batch = 0` is loud as well: every call panics (division by zero). -/
 theorem zero_batch_size_is_loud (s : State) (h0 : s.rpb = 0) (r n : Nat) (ht : s.total = .specified n) :
